@@ -197,6 +197,9 @@ def run_property(pid, harnesses, tier, seed, level='model_checking', assumptions
                     case = h.case_of({'oblig': v['oblig'], 'model': hit['model'], 'info': v['info'], 'class': hit['class']})
                     confd, what_d = h.confirm(case, 'dev')
                     confr, what_r = h.confirm(case, 'release')
+                    # a replay binary that does not know the scenario has confirmed nothing
+                    if 'unknown case kind' in str(what_d): confd = False
+                    if 'unknown case kind' in str(what_r): confr = False
                 except Exception as e:
                     inconclusive.append('%s: replay error %s: %s' % (h.name, type(e).__name__, e)); continue
                 rec = {'property': pid, 'harness': h.name, 'oblig': v['oblig'], 'class': hit['class'], 'case': case,
